@@ -16,6 +16,7 @@ import sys
 sys.path.insert(0, os.path.dirname(os.path.dirname(os.path.abspath(__file__))))
 
 import copy
+import contextlib
 import math
 
 import torch
@@ -98,6 +99,10 @@ def gen_case(run_seed: int, index: int, tier: str) -> dict:
         # one very large tensor per 5000 runs (block-wise generators would show at the tail)
         case.update({"kind": rng.choice(["lap_power", "awgn_power", "lap_snr"]), "shape": [(3 << 22) + 5], "complex": False, "dtype": "float32", "warmup": None, "noncontig": False})
     case["noise_dtype"] = rng.choice(["same", "same", "wider", "complex"])  # dtype of caller-supplied noise relative to the input
+    # the judged calls are made with autograd recording on (the default), inside torch.no_grad(), or inside torch.inference_mode()
+    case["grad_mode"] = rng.choice(["grad", "grad", "no_grad", "no_grad", "inference"])
+    # a real-valued signal carried in a complex tensor (BPSK symbols, real data cast to complex): imaginary part zero everywhere
+    case["imag_zero"] = case["complex"] and rng.random() < 0.2
     if rng.random() < 0.15:  # the edges of the stated ranges
         case["snr_db"], case["snr_db2"] = rng.choice([(-20.0, 40.0), (40.0, -20.0), (40.0, 39.0), (-20.0, -19.0)])
         case["sig_power"] = rng.choice([1e-3, 1e3])
@@ -132,6 +137,9 @@ def _signal(case):
             t = t * w
         return t
 
+    if case["complex"] and case.get("imag_zero"):
+        re = part()
+        return torch.complex(re, torch.zeros_like(re)) * amp
     if case["complex"]:
         return torch.complex(part(), part()) * (amp / math.sqrt(2.0))
     return part() * amp
@@ -293,10 +301,16 @@ def execute(case: dict) -> RunResult:
             run1(w)
             run2(w)
             res.faults["history.earlier_call_on_same_object"] += 1
-    torch.manual_seed(case["torch_seed"])
-    y1, s1 = run1(x)
-    torch.manual_seed(case["torch_seed"])
-    y2, s2 = run2(x)
+    gm = case.get("grad_mode", "grad")
+    ctx = {"grad": contextlib.nullcontext, "no_grad": torch.no_grad, "inference": torch.inference_mode}[gm]
+    res.probes[f"autograd_mode.{gm}"] += 1
+    if case.get("imag_zero"):
+        res.probes["signal.real_valued_in_complex_tensor"] += 1
+    with ctx():
+        torch.manual_seed(case["torch_seed"])
+        y1, s1 = run1(x)
+        torch.manual_seed(case["torch_seed"])
+        y2, s2 = run2(x)
     if not torch.equal(x, x0):
         violate("input_modified", "the input tensor was modified")
     if list(y1.shape) != list(x.shape):
@@ -515,7 +529,7 @@ def shrink_candidates(case: dict):
             c = copy.deepcopy(case)
             c["shape"] = shp
             yield c
-    for k, v in (("dtype", "float32"), ("signal", "gauss"), ("snr_as", "float"), ("dim", None)):
+    for k, v in (("dtype", "float32"), ("signal", "gauss"), ("snr_as", "float"), ("dim", None), ("grad_mode", "grad"), ("imag_zero", False)):
         if case.get(k) != v:
             c = copy.deepcopy(case)
             c[k] = v
